@@ -102,6 +102,13 @@ var vC13Stmts = []string{
 	"delete where value = 'x' limit 1",
 	"delete where key in ('a', 'b')",
 	"delete where key = 'a' & value = 'x'",
+	// residual filters: one Batch call reads several chunks, some rows accepted before the fault
+	"select * where key >= 'a' & value = 'x'",
+	"select * where key ^= 'a' & value = 'x'",
+	"select * where key in ('a', 'b', 'ab', 'ba') & value = 'x'",
+	"select key, upper(value) as u where u = 'X'",
+	"delete where key >= 'a' & value = 'x'",
+	"select count(1) where key >= 'a' & value = 'x'",
 }
 
 func VN_C13(tier int) int { return len(vC13Stmts) }
